@@ -54,6 +54,11 @@ type normalizer struct {
 	edits   map[string][]textEdit
 	imports map[string]map[string]string // file -> path -> name to add
 	seq     int
+
+	noConcrete bool // do not bind interface parameters with the argument's own type
+	hasDefer   map[*ast.FuncDecl]bool
+	varDef     map[types.Object]ast.Expr // local variable defined once by this expression
+	varBad     map[types.Object]bool     // reassigned / address taken / unknown definition
 }
 
 func sigOfTypes(sig *types.Signature) string {
@@ -177,6 +182,9 @@ func Normalize(dir, goarch string, tags []string) (map[string][]byte, []string) 
 		n.classify()
 		changed := n.inlineRound()
 		if !changed {
+			changed = n.cleanupRound()
+		}
+		if !changed {
 			changed = n.deleteRound()
 		}
 		if !changed {
@@ -193,8 +201,12 @@ func Normalize(dir, goarch string, tags []string) (map[string][]byte, []string) 
 		}
 		// verify
 		if err := n.load(); err != nil {
-			n.notes = append(n.notes, fmt.Sprintf("normalisation round %d rolled back (does not type-check): %v", round, err))
 			n.overlay = prev
+			if !n.noConcrete {
+				n.noConcrete = true // retry this round with interface-typed parameter temporaries
+				continue
+			}
+			n.notes = append(n.notes, fmt.Sprintf("normalisation round %d rolled back (does not type-check): %v", round, err))
 			break
 		}
 	}
@@ -252,6 +264,8 @@ func (n *normalizer) classify() {
 	n.newFns = map[*types.Func]bool{}
 	n.edits = map[string][]textEdit{}
 	n.imports = map[string]map[string]string{}
+	n.hasDefer = map[*ast.FuncDecl]bool{}
+	n.indexVars()
 	present := map[string]bool{}
 	for _, f := range n.pp.Syntax {
 		for _, d := range f.Decls {
@@ -307,6 +321,11 @@ func (n *normalizer) inlinable(fn *types.Func, fd *ast.FuncDecl) bool {
 		return false
 	}
 	ok := true
+	defer func() {
+		if !ok {
+			delete(n.hasDefer, fd)
+		}
+	}()
 	var visit func(node ast.Node, inLit bool)
 	visit = func(node ast.Node, inLit bool) {
 		ast.Inspect(node, func(x ast.Node) bool {
@@ -321,7 +340,7 @@ func (n *normalizer) inlinable(fn *types.Func, fd *ast.FuncDecl) bool {
 				}
 			case *ast.DeferStmt:
 				if !inLit {
-					ok = false
+					n.hasDefer[fd] = true // only inlinable in tail position
 				}
 			case *ast.LabeledStmt:
 				if !inLit {
@@ -337,7 +356,7 @@ func (n *normalizer) inlinable(fn *types.Func, fd *ast.FuncDecl) bool {
 						ok = false
 					}
 				}
-				if callee, _ := n.calleeOf(y); callee == fn {
+				if callee, _ := n.calleeOf(y); callee != nil && callee == fn {
 					ok = false // recursive
 				}
 			case *ast.Ident:
@@ -390,15 +409,19 @@ func (n *normalizer) calleeOf(call *ast.CallExpr) (*types.Func, *ast.Ident) {
 }
 
 type site struct {
-	call    *ast.CallExpr
-	callee  *types.Func
-	id      *ast.Ident
-	stmt    ast.Stmt
-	parent  ast.Node   // parent of stmt
-	encl    ast.Node   // enclosing FuncDecl / FuncLit
-	file    *ast.File
-	form    string     // expr, assign, return, nested
-	wrapIf  *ast.IfStmt // statement is the Init of / nested in the header of this if
+	fd     *ast.FuncDecl    // callee declaration (synthesised around a function literal for literal calls)
+	sig    *types.Signature // callee signature (instantiated)
+	lit    *ast.FuncLit
+	chain  map[types.Object]bool
+	call   *ast.CallExpr
+	callee *types.Func
+	id     *ast.Ident
+	stmt   ast.Stmt
+	parent ast.Node // parent of stmt
+	encl   ast.Node // enclosing FuncDecl / FuncLit
+	file   *ast.File
+	form   string      // expr, assign, return, nested
+	wrapIf *ast.IfStmt // statement is the Init of / nested in the header of this if
 }
 
 func (n *normalizer) off(p token.Pos) int { return n.fset.PositionFor(p, false).Offset }
@@ -430,9 +453,6 @@ func (n *normalizer) overlaps(file string, start, end int) bool {
 
 // inlineRound collects the call sites of inlinable helpers and produces the edits. Reports whether anything was changed.
 func (n *normalizer) inlineRound() bool {
-	if len(n.helpers) == 0 {
-		return false
-	}
 	changed := false
 	for _, f := range n.pp.Syntax {
 		filename := n.fset.File(f.Pos()).Name()
@@ -449,10 +469,43 @@ func (n *normalizer) inlineRound() bool {
 				return true
 			}
 			callee, id := n.calleeOf(call)
-			if callee == nil || !n.helpers[callee] {
+			var s *site
+			if callee != nil && n.helpers[callee] {
+				s = &site{call: call, callee: callee, id: id, file: f, fd: n.decls[callee]}
+				s.sig = callee.Type().(*types.Signature)
+				if inst, ok := n.info.Instances[id]; ok {
+					if isig, ok := inst.Type.(*types.Signature); ok {
+						s.sig = isig
+					}
+				}
+			} else if fid, isId := ast.Unparen(call.Fun).(*ast.Ident); isId && callee == nil {
+				lit, chain := n.resolveLit(fid)
+				if lit == nil {
+					return true
+				}
+				sig, _ := n.info.TypeOf(lit).(*types.Signature)
+				if sig == nil {
+					return true
+				}
+				fd := &ast.FuncDecl{Name: ast.NewIdent("func literal bound to " + fid.Name), Type: lit.Type, Body: lit.Body}
+				n.fileOf[fd] = f
+				if !n.inlinable(nil, fd) {
+					return true
+				}
+				selfRef := false
+				ast.Inspect(lit.Body, func(y ast.Node) bool {
+					if yi, ok := y.(*ast.Ident); ok && chain[n.info.Uses[yi]] {
+						selfRef = true
+					}
+					return !selfRef
+				})
+				if selfRef {
+					return true
+				}
+				s = &site{call: call, id: fid, file: f, fd: fd, sig: sig, lit: lit, chain: chain}
+			} else {
 				return true
 			}
-			s := &site{call: call, callee: callee, id: id, file: f}
 			// innermost statement and enclosing function
 			for i := len(stack) - 2; i >= 0; i-- {
 				if st, isStmt := stack[i].(ast.Stmt); isStmt && s.stmt == nil {
@@ -474,10 +527,13 @@ func (n *normalizer) inlineRound() bool {
 			if s.stmt == nil || s.encl == nil {
 				return true
 			}
-			if fd, isFD := s.encl.(*ast.FuncDecl); isFD {
+			if fd, isFD := s.encl.(*ast.FuncDecl); isFD && callee != nil {
 				if fn, _ := n.info.Defs[fd.Name].(*types.Func); fn == callee {
 					return true
 				}
+			}
+			if s.lit != nil && s.lit.Pos() <= call.Pos() && call.End() <= s.lit.End() {
+				return true
 			}
 			sites = append(sites, s)
 			return true
@@ -759,6 +815,13 @@ func (n *normalizer) checkFreeNames(fd *ast.FuncDecl, s *site, filename string) 
 	if scope == nil {
 		return false
 	}
+	lo, hi := fd.Body.Pos(), fd.Body.End()
+	if fd.Type != nil && fd.Type.Pos().IsValid() && fd.Type.Pos() < lo {
+		lo = fd.Type.Pos()
+	}
+	if fd.Recv != nil && fd.Recv.Pos().IsValid() && fd.Recv.Pos() < lo {
+		lo = fd.Recv.Pos()
+	}
 	ast.Inspect(fd.Body, func(x ast.Node) bool {
 		id, isId := x.(*ast.Ident)
 		if !isId || !ok {
@@ -795,16 +858,258 @@ func (n *normalizer) checkFreeNames(fd *ast.FuncDecl, s *site, filename string) 
 				n.imports[filename][o.Imported().Path()] = id.Name
 			}
 		default:
-			if obj.Parent() == n.pp.Types.Scope() || obj.Parent() == types.Universe {
-				_, found := scope.LookupParent(id.Name, s.stmt.Pos())
-				if found != obj {
-					ok = false
-				}
+			if _, isField := obj.(*types.Var); isField && obj.(*types.Var).IsField() {
+				return true
+			}
+			if _, isFn := obj.(*types.Func); isFn && obj.Parent() == nil {
+				return true // method
+			}
+			if obj.Pkg() != nil && obj.Pkg() != n.pp.Types {
+				return true // qualified identifier of another package
+			}
+			if obj.Pos().IsValid() && lo <= obj.Pos() && obj.Pos() < hi && obj.Parent() != n.pp.Types.Scope() && obj.Parent() != types.Universe {
+				return true // declared inside the callee
+			}
+			_, found := scope.LookupParent(id.Name, s.stmt.Pos())
+			if found != obj {
+				ok = false
 			}
 		}
 		return true
 	})
 	return ok
+}
+
+// paramOnlyCalled: inside the callee the parameter is only the receiver of method calls, an argument, or a returned value.
+func (n *normalizer) paramOnlyCalled(fd *ast.FuncDecl, pid *ast.Ident) bool {
+	obj := n.info.Defs[pid]
+	if obj == nil || n.varBad[obj] {
+		return false
+	}
+	ok := true
+	var stack []ast.Node
+	ast.Inspect(fd.Body, func(x ast.Node) bool {
+		if x == nil {
+			stack = stack[:len(stack)-1]
+			return true
+		}
+		stack = append(stack, x)
+		id, isId := x.(*ast.Ident)
+		if !isId || n.info.Uses[id] != obj || len(stack) < 2 {
+			return true
+		}
+		switch p := stack[len(stack)-2].(type) {
+		case *ast.SelectorExpr:
+			if p.X == ast.Expr(id) && len(stack) >= 3 {
+				if call, isCall := stack[len(stack)-3].(*ast.CallExpr); isCall && call.Fun == ast.Expr(p) {
+					return true
+				}
+			}
+			ok = false
+		case *ast.CallExpr:
+			for _, a := range p.Args {
+				if a == ast.Expr(id) {
+					return true
+				}
+			}
+			ok = false
+		case *ast.ReturnStmt:
+		default:
+			ok = false
+		}
+		return true
+	})
+	return ok
+}
+
+func (n *normalizer) reject(s *site, code int) bool {
+	if os.Getenv("MQTTCHECK_DEBUG_NORM") != "" {
+		fmt.Fprintf(os.Stderr, "normalise: site %s at %s not inlined (reason #%d)\n", s.calleeName(), n.fset.Position(s.call.Pos()), code)
+	}
+	return false
+}
+
+func (s *site) calleeName() string {
+	if s.callee != nil {
+		return funcKeyOf(s.callee)
+	}
+	return s.fd.Name.Name
+}
+
+// indexVars records, for local variables, the single expression that defines them (or that they are not single-assignment).
+func (n *normalizer) indexVars() {
+	n.varDef = map[types.Object]ast.Expr{}
+	n.varBad = map[types.Object]bool{}
+	bad := func(e ast.Expr) {
+		if id, ok := ast.Unparen(e).(*ast.Ident); ok {
+			if obj := n.info.ObjectOf(id); obj != nil {
+				n.varBad[obj] = true
+			}
+		}
+	}
+	for _, f := range n.pp.Syntax {
+		ast.Inspect(f, func(x ast.Node) bool {
+			switch y := x.(type) {
+			case *ast.AssignStmt:
+				if y.Tok == token.DEFINE && len(y.Lhs) == len(y.Rhs) {
+					for i, l := range y.Lhs {
+						id, ok := l.(*ast.Ident)
+						if !ok {
+							continue
+						}
+						if obj := n.info.Defs[id]; obj != nil {
+							n.varDef[obj] = y.Rhs[i]
+						} else {
+							bad(l)
+						}
+					}
+				} else if y.Tok == token.DEFINE {
+					for _, l := range y.Lhs {
+						if id, ok := l.(*ast.Ident); ok && n.info.Defs[id] == nil {
+							bad(l)
+						}
+					}
+				} else {
+					for _, l := range y.Lhs {
+						bad(l)
+					}
+				}
+			case *ast.ValueSpec:
+				if len(y.Names) == len(y.Values) {
+					for i, id := range y.Names {
+						if obj := n.info.Defs[id]; obj != nil {
+							n.varDef[obj] = y.Values[i]
+						}
+					}
+				}
+			case *ast.UnaryExpr:
+				if y.Op == token.AND {
+					bad(y.X)
+				}
+			case *ast.IncDecStmt:
+				bad(y.X)
+			case *ast.RangeStmt:
+				if y.Tok == token.ASSIGN {
+					if y.Key != nil {
+						bad(y.Key)
+					}
+					if y.Value != nil {
+						bad(y.Value)
+					}
+				}
+			}
+			return true
+		})
+	}
+}
+
+// resolveLit: id names a local variable that is (through single-assignment copies, at least one of which was introduced
+// by inlining) bound to a function literal.
+func (n *normalizer) resolveLit(id *ast.Ident) (*ast.FuncLit, map[types.Object]bool) {
+	chain := map[types.Object]bool{}
+	viaInl := false
+	for depth := 0; depth < 10; depth++ {
+		v, ok := n.info.Uses[id].(*types.Var)
+		if !ok || v.IsField() || v.Parent() == nil || v.Parent() == n.pp.Types.Scope() || n.varBad[v] || chain[v] {
+			return nil, nil
+		}
+		chain[v] = true
+		if strings.HasPrefix(id.Name, "_inl") {
+			viaInl = true
+		}
+		e, ok := n.varDef[v]
+		if !ok {
+			return nil, nil
+		}
+		switch x := ast.Unparen(e).(type) {
+		case *ast.FuncLit:
+			if !viaInl {
+				return nil, nil
+			}
+			return x, chain
+		case *ast.Ident:
+			id = x
+		default:
+			return nil, nil
+		}
+	}
+	return nil, nil
+}
+
+// cleanupRound: a function literal held only by inlining temporaries whose calls have all been inlined is replaced by nil,
+// so that no uncalled anonymous function remains for the rules to look at.
+func (n *normalizer) cleanupRound() bool {
+	type useCtx struct{ parent, grand ast.Node }
+	uses := map[types.Object][]useCtx{}
+	for _, f := range n.pp.Syntax {
+		var stack []ast.Node
+		ast.Inspect(f, func(x ast.Node) bool {
+			if x == nil {
+				stack = stack[:len(stack)-1]
+				return true
+			}
+			stack = append(stack, x)
+			if id, ok := x.(*ast.Ident); ok {
+				if obj := n.info.Uses[id]; obj != nil {
+					var u useCtx
+					if len(stack) >= 2 {
+						u.parent = stack[len(stack)-2]
+					}
+					if len(stack) >= 3 {
+						u.grand = stack[len(stack)-3]
+					}
+					uses[obj] = append(uses[obj], u)
+				}
+			}
+			return true
+		})
+	}
+	var dead func(obj types.Object, depth int) bool
+	dead = func(obj types.Object, depth int) bool {
+		if depth > 8 || n.varBad[obj] {
+			return false
+		}
+		for _, u := range uses[obj] {
+			switch p := u.parent.(type) {
+			case *ast.AssignStmt:
+				if len(p.Lhs) == 1 && len(p.Rhs) == 1 {
+					if l, ok := p.Lhs[0].(*ast.Ident); ok {
+						if l.Name == "_" && p.Tok == token.ASSIGN {
+							continue
+						}
+						if p.Tok == token.DEFINE {
+							if lo := n.info.Defs[l]; lo != nil && dead(lo, depth+1) {
+								continue
+							}
+						}
+					}
+				}
+				return false
+			default:
+				return false
+			}
+		}
+		return true
+	}
+	changed := false
+	for obj, e := range n.varDef {
+		if !strings.HasPrefix(obj.Name(), "_inl") {
+			continue
+		}
+		lit, ok := ast.Unparen(e).(*ast.FuncLit)
+		if !ok || !dead(obj, 0) {
+			continue
+		}
+		filename := n.fset.File(lit.Pos()).Name()
+		if n.overlaps(filename, n.off(lit.Pos()), n.off(lit.End())) {
+			continue
+		}
+		n.addEdit(filename, n.off(lit.Pos()), n.off(lit.End()), "nil")
+		n.addEdit(filename, n.off(lit.End()), n.off(lit.End()), "\n"+n.lineDirective(filename, n.fset.Position(lit.End()).Line))
+		n.notes = append(n.notes, fmt.Sprintf("dropped function literal held by %s (all its calls inlined)", obj.Name()))
+		changed = true
+	}
+	return changed
 }
 
 func fieldIdents(fl *ast.FieldList) []*ast.Ident {
@@ -909,8 +1214,10 @@ func (n *normalizer) threadable(as *ast.AssignStmt, iff *ast.IfStmt) *threadSpec
 }
 
 // bodyText prints the callee's body with its return statements rewritten.
-//   mode "tail": returns are kept (bare returns get the named results spelled out);
-//   mode "assign": `return e...` => `{ temps = e...; break label }`; a single final return becomes a plain assignment.
+//
+//	mode "tail": returns are kept (bare returns get the named results spelled out);
+//	mode "assign": `return e...` => `{ temps = e...; break label }`; a single final return becomes a plain assignment.
+//
 // cloneAST deep-copies a syntax tree; m receives original -> copy for every node that is a pointer.
 func cloneAST(node ast.Node, m map[ast.Node]ast.Node) ast.Node {
 	objT := reflect.TypeOf((*ast.Object)(nil))
@@ -1004,9 +1311,11 @@ type threadSpec struct {
 }
 
 // bodyText prints the callee's body with its return statements rewritten.
-//   mode "tail": returns are kept (bare returns get the named results spelled out);
-//   mode "assign": `return e...` => `{ temps = e...; break label }`; a single final return becomes a plain assignment;
-//   mode "thread": see threadSpec.
+//
+//	mode "tail": returns are kept (bare returns get the named results spelled out);
+//	mode "assign": `return e...` => `{ temps = e...; break label }`; a single final return becomes a plain assignment;
+//	mode "thread": see threadSpec.
+//
 // rename maps objects declared in the callee to fresh names.
 func (n *normalizer) bodyText(fd *ast.FuncDecl, mode string, temps []string, resNames []string, label string, rename map[types.Object]string, th *threadSpec) (string, bool, error) {
 	m := map[ast.Node]ast.Node{}
@@ -1134,9 +1443,9 @@ func (n *normalizer) pinLines(text, filename string, line int) string {
 }
 
 func (n *normalizer) inlineSite(filename string, s *site) (done bool) {
-	fd := n.decls[s.callee]
+	fd := s.fd
 	if fd == nil {
-		return false
+		return n.reject(s, 1)
 	}
 	savedImports := map[string]string{}
 	for k, v := range n.imports[filename] {
@@ -1148,12 +1457,7 @@ func (n *normalizer) inlineSite(filename string, s *site) (done bool) {
 		}
 	}()
 	call := s.call
-	sig := s.callee.Type().(*types.Signature)
-	if inst, ok := n.info.Instances[s.id]; ok {
-		if isig, ok := inst.Type.(*types.Signature); ok {
-			sig = isig
-		}
-	}
+	sig := s.sig
 	nres := sig.Results().Len()
 	// ---- statement form
 	st := s.stmt
@@ -1166,10 +1470,10 @@ func (n *normalizer) inlineSite(filename string, s *site) (done bool) {
 			wrapIf = pi
 		case ok && pi.Else == st:
 			if _, isIf := st.(*ast.IfStmt); !isIf {
-				return false
+				return n.reject(s, 2)
 			}
 		default:
-			return false
+			return n.reject(s, 3)
 		}
 	}
 	if is, ok := st.(*ast.IfStmt); ok {
@@ -1186,7 +1490,7 @@ func (n *normalizer) inlineSite(filename string, s *site) (done bool) {
 			form = "assign"
 			for _, l := range x.Lhs {
 				if !pureExpr(l, n.info) {
-					return false
+					return n.reject(s, 4)
 				}
 			}
 		}
@@ -1197,11 +1501,11 @@ func (n *normalizer) inlineSite(filename string, s *site) (done bool) {
 	}
 	if form == "nested" {
 		if nres != 1 || !n.hoistable(st, call) {
-			return false
+			return n.reject(s, 5)
 		}
 	}
 	if _, isLabeled := s.parent.(*ast.LabeledStmt); isLabeled {
-		return false
+		return n.reject(s, 6)
 	}
 	// ---- error-check threading
 	var th *threadSpec
@@ -1233,14 +1537,14 @@ func (n *normalizer) inlineSite(filename string, s *site) (done bool) {
 	}
 	if wrapIf != nil {
 		if n.overlaps(filename, n.off(wrapIf.Pos()), n.off(wrapIf.Body.Lbrace)) || n.overlaps(filename, n.off(wrapIf.End()), n.off(wrapIf.End())) {
-			return false
+			return n.reject(s, 7)
 		}
 	}
 	if n.overlaps(filename, stStart, stEnd) {
-		return false
+		return n.reject(s, 8)
 	}
 	if !n.checkFreeNames(fd, s, filename) {
-		return false
+		return n.reject(s, 9)
 	}
 	n.counter++
 	pfx := fmt.Sprintf("_inl%d", n.counter)
@@ -1290,6 +1594,9 @@ func (n *normalizer) inlineSite(filename string, s *site) (done bool) {
 			}
 		}
 	}
+	if n.hasDefer[fd] && !tail {
+		return n.reject(s, 10) // deferred calls of the callee would run later than they do now
+	}
 	var temps []string
 	if th != nil {
 		as := st.(*ast.AssignStmt)
@@ -1303,7 +1610,7 @@ func (n *normalizer) inlineSite(filename string, s *site) (done bool) {
 			}
 			tt, ok := n.typeText(sig.Results().At(i).Type(), s.file, filename)
 			if !ok {
-				return false
+				return n.reject(s, 11)
 			}
 			fmt.Fprintf(&pre, "var %s %s\n_ = %s\n", id.Name, tt, id.Name)
 		}
@@ -1312,7 +1619,7 @@ func (n *normalizer) inlineSite(filename string, s *site) (done bool) {
 		for i := 0; i < nres; i++ {
 			tt, ok := n.typeText(sig.Results().At(i).Type(), s.file, filename)
 			if !ok {
-				return false
+				return n.reject(s, 12)
 			}
 			t := fmt.Sprintf("%sr%d", pfx, i)
 			temps = append(temps, t)
@@ -1326,10 +1633,10 @@ func (n *normalizer) inlineSite(filename string, s *site) (done bool) {
 	if sig.Recv() != nil {
 		sel, ok := ast.Unparen(call.Fun).(*ast.SelectorExpr)
 		if !ok {
-			return false
+			return n.reject(s, 13)
 		}
 		if selection := n.info.Selections[sel]; selection == nil || len(selection.Index()) != 1 {
-			return false
+			return n.reject(s, 14)
 		}
 		rtxt := n.src(filename, sel.X.Pos(), sel.X.End())
 		at := n.info.TypeOf(sel.X)
@@ -1360,11 +1667,11 @@ func (n *normalizer) inlineSite(filename string, s *site) (done bool) {
 	}
 	np := sig.Params().Len()
 	if len(pnames) != np {
-		return false
+		return n.reject(s, 15)
 	}
 	args := call.Args
 	if len(args) == 1 && np > 1 {
-		return false // f(g()) with a tuple-valued g
+		return n.reject(s, 16) // f(g()) with a tuple-valued g
 	}
 	for i := 0; i < np; i++ {
 		pt := sig.Params().At(i).Type()
@@ -1373,7 +1680,7 @@ func (n *normalizer) inlineSite(filename string, s *site) (done bool) {
 		if variadic && !call.Ellipsis.IsValid() {
 			tt, ok := n.typeText(pt, s.file, filename)
 			if !ok {
-				return false
+				return n.reject(s, 17)
 			}
 			var elems []string
 			for _, a := range args[i:] {
@@ -1386,25 +1693,35 @@ func (n *normalizer) inlineSite(filename string, s *site) (done bool) {
 			}
 		} else {
 			if i >= len(args) {
-				return false
+				return n.reject(s, 18)
 			}
 			a := args[i]
 			tv, ok := n.info.Types[a]
 			if !ok {
-				return false
+				return n.reject(s, 19)
 			}
 			if _, isTuple := tv.Type.(*types.Tuple); isTuple {
-				return false
+				return n.reject(s, 20)
 			}
 			atxt := n.src(filename, a.Pos(), a.End())
 			typed := tv.IsNil() || !types.Identical(tv.Type, pt)
 			if b, isB := tv.Type.(*types.Basic); isB && b.Info()&types.IsUntyped != 0 {
 				typed = true
 			}
+			if _, isLit := ast.Unparen(a).(*ast.FuncLit); isLit {
+				typed = true // so that the literal can be replaced by nil once its calls are inlined
+			}
+			if typed && !n.noConcrete && !tv.IsNil() && types.IsInterface(pt) && !types.Identical(tv.Type, pt) {
+				if b, isB := tv.Type.(*types.Basic); !isB || b.Info()&types.IsUntyped == 0 {
+					if pid := fieldIdents(fd.Type.Params)[i]; pid != nil && n.paramOnlyCalled(fd, pid) {
+						typed = false // keep the argument's own type: method calls on it stay resolvable
+					}
+				}
+			}
 			if typed {
 				tt, ok := n.typeText(pt, s.file, filename)
 				if !ok {
-					return false
+					return n.reject(s, 21)
 				}
 				fmt.Fprintf(&pre, "var %s %s = %s\n_ = %s\n", t, tt, atxt, t)
 			} else {
@@ -1416,7 +1733,7 @@ func (n *normalizer) inlineSite(filename string, s *site) (done bool) {
 		}
 	}
 	if !sig.Variadic() && len(args) != np {
-		return false
+		return n.reject(s, 22)
 	}
 	// ---- inner block: parameters, named results, body
 	pre.WriteString("{\n")
@@ -1436,7 +1753,7 @@ func (n *normalizer) inlineSite(filename string, s *site) (done bool) {
 			}
 			tt, ok := n.typeText(sig.Results().At(i).Type(), s.file, filename)
 			if !ok {
-				return false
+				return n.reject(s, 23)
 			}
 			fmt.Fprintf(&pre, "var %s %s\n_ = %s\n", rn, tt, rn)
 			resNames = append(resNames, rn)
@@ -1452,7 +1769,7 @@ func (n *normalizer) inlineSite(filename string, s *site) (done bool) {
 	}
 	body, usedLabel, err := n.bodyText(fd, mode, temps, resNames, label, rename, th)
 	if err != nil {
-		return false
+		return n.reject(s, 24)
 	}
 	if usedLabel {
 		fmt.Fprintf(&pre, "%s:\nswitch {\ndefault:\n", label)
@@ -1481,9 +1798,9 @@ func (n *normalizer) inlineSite(filename string, s *site) (done bool) {
 			post = "return " + strings.Join(temps, ", ") + "\n"
 		}
 	}
-	note := fmt.Sprintf("inlined %s at %s:%d (%s)", funcKeyOf(s.callee), filepath.Base(filename), line, form)
+	note := fmt.Sprintf("inlined %s at %s:%d (%s)", s.calleeName(), filepath.Base(filename), line, form)
 	if th != nil {
-		note = fmt.Sprintf("inlined %s at %s:%d (assign + error test threaded through each return)", funcKeyOf(s.callee), filepath.Base(filename), line)
+		note = fmt.Sprintf("inlined %s at %s:%d (assign + error test threaded through each return)", s.calleeName(), filepath.Base(filename), line)
 		gen := pre.String()
 		if thIf.Init == st {
 			gen += "}\n"
